@@ -343,6 +343,10 @@ func cbcHostileCase(c *ev.Case) {
 		built = "random full-block ciphertext"
 	default: // crafted padded-plaintext tails, encrypted by the reference
 		nb := rng.Range(1, 5)
+		if rng.Chance(1, 50) { // a few messages of many blocks (up to 4 KiB)
+			nb = rng.Pick(6, 8, 16, 17, 64, 65, 256)
+			c.Add("cbc_hostile_many_blocks", 1)
+		}
 		p, how := hostileTail(rng, nb*blk, blk)
 		ct = cbcEncRaw(b, iv, p)
 		built = fmt.Sprintf("reference-CBC of %d blocks with tail %s", nb, how)
@@ -362,21 +366,42 @@ func cbcHostileCase(c *ev.Case) {
 	if !cbcDecryptCheck(c, inplace, ct, key, iv, ref.ok, want, why) {
 		return
 	}
+	lay := "separate"
+	if inplace {
+		lay = "inplace"
+	}
 	if ref.ok {
 		c.Add("cbc_hostile_valid_recovered", 1)
+		c.Add("cbc_hostile_valid_recovered_"+lay, 1)
 	} else {
 		c.Add("cbc_hostile_rejected", 1)
+		c.Add("cbc_hostile_rejected_"+lay, 1)
+		if len(ct) == 0 {
+			c.Add("cbc_hostile_empty_ciphertext_rejected", 1)
+		}
 	}
+	c.Add(fmt.Sprintf("cbc_hostile_key%d", klen*8), 1)
 	c.Distinct(ev.Mix(2, ev.HashBytes(key), ev.HashBytes(iv), ev.HashBytes(ct)))
 	if wantSample(c, 1777) {
 		c.Sample(fmt.Sprintf("cbc-hostile: %s (%d bytes) -> reference %s; golib agreed", built, len(ct), ref.class))
 	}
 }
 
-// badKeyCase: key sizes 0..40. Valid sizes are the positive control.
+// badKeySizes: every size 0..40 plus sizes well above the largest AES key
+// (multiples and neighbours of the valid sizes, where an implementation that
+// folds, truncates or hashes an over-long key would start accepting it).
+var badKeySizes = func() []int {
+	s := make([]int, 0, 53)
+	for i := 0; i <= 40; i++ {
+		s = append(s, i)
+	}
+	return append(s, 47, 48, 49, 63, 64, 65, 96, 128, 255, 256, 512, 1024)
+}()
+
+// badKeyCase: key sizes 0..40 and larger. Valid sizes are the positive control.
 func badKeyCase(c *ev.Case) {
 	rng := c.Rng
-	klen := c.Index % 41
+	klen := badKeySizes[c.Index%len(badKeySizes)]
 	key := rng.Bytes(klen)
 	if klen == 0 && rng.Bool() {
 		key = nil
@@ -388,6 +413,32 @@ func badKeyCase(c *ev.Case) {
 	nonce := rng.Bytes(12)
 	aad := rng.Bytes(rng.Intn(9))
 	encL := n + blk - n%blk
+	// The ciphertexts offered to the two decrypt functions are genuine messages
+	// under a valid-size key derived from the offered one (a prefix of 16/24/32
+	// bytes, or the key zero-extended to such a size), so that an implementation
+	// that folds an invalid key into a valid one instead of refusing it cannot
+	// hide behind a padding / authentication error.
+	fk := clone(key)
+	if !valid {
+		s := keySizes[(c.Index/len(badKeySizes))%3]
+		if klen > s {
+			fk = clone(key[:s])
+		} else {
+			fk = append(clone(key), make([]byte, s-klen)...)
+		}
+	}
+	fb, ferr := aes.NewCipher(fk)
+	if ferr != nil {
+		c.Run().HarnessFailure("reference NewCipher: " + ferr.Error())
+		return
+	}
+	fg, ferr := refGCM(fk, 12)
+	if ferr != nil {
+		c.Run().HarnessFailure("reference GCM: " + ferr.Error())
+		return
+	}
+	cbcCT := cbcEncRaw(fb, iv, refPad(pt, blk))
+	sealed := fg.Seal(nil, nonce, pt, aad)
 	type res struct {
 		name string
 		err  error
@@ -409,11 +460,7 @@ func badKeyCase(c *ev.Case) {
 		return
 	}
 	if !run("AESCBCDecrypt", func() error {
-		ct := rng.Bytes(encL)
-		_, err := cryptz.AESCBCDecrypt(make([]byte, encL), ct, key, iv)
-		if valid {
-			return nil // random ciphertext: padding verdict is not the point here
-		}
+		_, err := cryptz.AESCBCDecrypt(make([]byte, encL), clone(cbcCT), key, iv)
 		return err
 	}) {
 		return
@@ -424,12 +471,7 @@ func badKeyCase(c *ev.Case) {
 		return
 	}
 	if !run("AESGCMDecrypt", func() error {
-		ct := rng.Bytes(n + 16)
-		err := cryptz.AESGCMDecrypt(make([]byte, n), ct, key, nonce, aad)
-		if valid {
-			return nil
-		}
-		return err
+		return cryptz.AESGCMDecrypt(make([]byte, n), clone(sealed), key, nonce, aad)
 	}) {
 		return
 	}
@@ -447,6 +489,9 @@ func badKeyCase(c *ev.Case) {
 		c.Add("key_size_valid_control", 1)
 	} else {
 		c.Add("key_size_invalid_rejected", 4)
+		if klen > 40 {
+			c.Add("key_size_invalid_above_40_rejected", 4)
+		}
 		c.Distinct(ev.Mix(3, uint64(klen), uint64(n)))
 	}
 	if !valid && wantSample(c, 7) {
